@@ -381,3 +381,21 @@ PROPS["C20"] = simple(
                "a marker file would reveal shell interpretation. Sampled over hook configurations and link strings.",
     level_note="Trusted: veriftools/dumphook and the expectation function in harness/ui/verif_c20_test.go. Which link belongs to a number is C12's subject; here the link is taken from the item's public accessor.",
 )
+
+PROPS["C19"] = simple(
+    "config", "TestVerifC19", "exploration",
+    "(1) config.hexToAnsi on every six-digit hex string (16^6, lower / upper / mixed case) and 12 k (quick) / 100 k (thorough) malformed strings; (2) a probe binary started like the real program "
+    "(config.init() may exit 1) with no file at all (baseline of the defaults) and with generated TOML files, one process each: every documented key present or absent, right- and wrong-typed "
+    "values, integers from -2^31 to 10^4 incl. 0 and negatives for preload_amount / timeout_seconds / cache_size, hex/underscore integer syntax, durations as strings, hooks [], [\"\"], "
+    "[nonexistent], [dumphook...], feeds with good, refused and non-URL entries, malformed colours (17 kinds), planted syntax errors and unknown keys/tables, BOM. An accepted file must run "
+    "through: print config, first fetch, open page, move (loads surroundings), open feed, open externally, render at 3 sizes. Non-trivial: every file; distinct = file text.",
+    tools=["dumphook", "probe"],
+    shards=dict(quick=4, thorough=16),
+    floor=dict(evaluations=100000, distinct=100000, accepted_and_ran_all_phases=10, rejected=20, planted_errors_rejected=10),
+    timeout=dict(quick=900, thorough=3000),
+    technique="runtime monitor at the process boundary: exit status, stderr classification and phase log of a probe process per configuration file; exhaustive differential check of the colour converter",
+    level_text="Each generated file is given to a real start-up of the program's own init path in a fresh process: it must either exit 1 with a diagnostic and no goroutine trace, or be accepted "
+               "and then survive every phase in which a configuration value is used; planted syntax errors, unknown keys and malformed colours must be rejected; absent keys must equal a no-file "
+               "baseline of the same tree; colour codes must be decimal triples <= 255. The colour converter is checked on its whole valid domain.",
+    level_note="Trusted: the probe (veriftools/probe) and its phase list; the TOML generator's knowledge of which errors it planted. Very large positive preload/cache values make the UI slow rather than crash and are not generated (<= 10^4).",
+)
